@@ -74,6 +74,8 @@ class C16:
         for k in ("failed_steps", "deep_stack_steps", "chdir_denied_steps", "missing_target_steps", "symlink_steps"):
             if c.get(k, 0) < 20:
                 r.append(f"{k} under-exercised ({c.get(k, 0)})")
+        if c.get("withcd_stored_manager_entered_from_another_directory", 0) < 20:
+            r.append("stored cd() managers entered from another directory under-exercised")
         return r
 
     # ------------------------------------------------------------------
@@ -314,7 +316,7 @@ class C16:
             victim = rng.choice(["A/x", "A/y", "B/z", "C/deep/er", "B", "sp ace", "A2"])
             return ("ext", [rng.choice(["rmdir", "chmod000", "chmod755", "mkdir"]), victim])
         if r < 0.14:
-            return ("withcd", [rng.choice(names + bad), rng.random() < 0.4])
+            return ("withcd", [rng.choice(names + bad), rng.random() < 0.4, rng.choice(["inline", "inline", "make", "stored", "stored"])])
         if r < 0.18:
             return ("fixcwd", [rng.choice(names)])
         if r < 0.44:
@@ -366,6 +368,7 @@ class C16:
         XSH.env["HOME"] = envm["HOME"]
         XSH.env["PUSHD_SILENT"] = True
         os.chdir(root)
+        self.stored_cm = None
         XSH.env["PWD"] = root
         with contextlib.suppress(KeyError):
             del XSH.env["OLDPWD"]
@@ -511,9 +514,20 @@ class C16:
         if op == "withcd":
             from xonsh.built_ins import XonshPathLiteral
 
-            d, do_raise = args
+            d, do_raise = args[:2]
+            how = args[2] if len(args) > 2 else "inline"
+            if how == "make":
+                # the manager object is made here and entered by a later step, from wherever the session is by then
+                self.stored_cm = XonshPathLiteral(os.path.abspath(d)).cd()
+                self.stored_cm_made_in = before[0]
+                rec.count("withcd_managers_stored")
+                return
+            cm = XonshPathLiteral(d).cd()
+            if how == "stored" and getattr(self, "stored_cm", None) is not None:
+                cm = self.stored_cm
+                rec.count("withcd_stored_manager_entered" + ("_from_another_directory" if self.stored_cm_made_in != before[0] else ""))
             try:
-                with XonshPathLiteral(d).cd():
+                with cm:
                     inside = os.getcwd()
                     if do_raise:
                         raise KeyError("verif")
